@@ -819,6 +819,13 @@ def search(ctx, hints):
         for key, what, obs, req in numeric_oracle(sd):
             v = Violation(K + key, what, {"numeric_seed": sd}, obs, req)
             best.setdefault(v.key, v)
+    for t, rows in enumerate(TALL if ctx.thorough else TALL[:3]):
+        for single in (False, True):
+            evals += 1
+            nontriv.add("tall:%d:%s" % (rows, single))
+            for key, what, obs, req in tall_oracle(rows, single):
+                v = Violation(K + key, what, {"tall_rows": rows, "single": single}, obs, req)
+                best.setdefault(v.key, v)
     # histories: fit, use, fit on another frame, use
     for t in range(ctx.pick(60, 600)):
         sd = rng.randrange(1 << 30)
@@ -828,6 +835,50 @@ def search(ctx, hints):
             v = Violation(K + key, what, {"history_seed": sd}, obs, req)
             best.setdefault(v.key, v)
     return list(best.values()), {"evaluations": evals, "distinct_nontrivial": len(nontriv), "samples": samples}
+
+
+TALL = (1025, 2049, 1024, 4097, 1023, 3000)
+
+
+def tall_oracle(rows, single):
+    """"every frame": also a long one - row counts around the block sizes a chunked implementation would use.  Row i
+    holds category cats[(i * 7 + i // 5) % 4]; the indicator / code of every row is checked, vectorised."""
+    import numpy
+    import pandas
+    from mlinsights.mlmodel.categories_to_integers import CategoriesToIntegers
+    cats = ["a", "b", "c", "d"]
+    idx = (numpy.arange(rows) * 7 + numpy.arange(rows) // 5) % 4
+    vals = [cats[i] for i in idx]
+    df = pandas.DataFrame({"c": pandas.Series(vals, dtype=object), "x": numpy.arange(rows, dtype=float)})
+    try:
+        out = CategoriesToIntegers(columns=["c"], single=single).fit(df).transform(df)
+    except Exception as e:  # noqa: BLE001
+        return [("raises-%s-on-seen-values" % type(e).__name__, "transform raises on a frame of %d rows" % rows,
+                 "%s: %s" % (type(e).__name__, str(e)[:120]), "no exception")]
+    if out.shape[0] != rows:
+        return [("index-or-row-count", "number of rows of the result for a frame of %d rows" % rows, int(out.shape[0]), rows)]
+    if single:
+        got = numpy.asarray(out["c"], dtype=float)
+        badrows = numpy.flatnonzero(got != idx.astype(float))
+        if len(badrows):
+            return [("single-rank", "single=True on %d rows: the code of row %d is not the rank of its category"
+                     % (rows, int(badrows[0])), float(got[badrows[0]]), float(idx[badrows[0]]))]
+        return []
+    for j, cat in enumerate(cats):
+        col = "c=%s" % cat
+        if col not in out.columns:
+            return [("wrong-indicator", "the indicator column %s is missing" % col, list(map(str, out.columns)), col)]
+        got = numpy.nan_to_num(numpy.asarray(out[col], dtype=float), nan=0.0)
+        want = (idx == j).astype(float)
+        badrows = numpy.flatnonzero(got != want)
+        if len(badrows):
+            r = int(badrows[0])
+            return [("wrong-indicator", "frame of %d rows: the cell (%d, %s) is not the indicator of the row's category %r "
+                     "(%d rows differ)" % (rows, r, col, vals[r], len(badrows)), float(got[r]), float(want[r]))]
+    if not numpy.array_equal(numpy.asarray(out["x"], dtype=float), numpy.arange(rows, dtype=float)):
+        return [("passthrough-changed", "the numeric column of a frame of %d rows is not passed through unchanged" % rows,
+                 "differs", "x unchanged")]
+    return []
 
 
 def numeric_oracle(seed):
@@ -967,6 +1018,8 @@ def replay(ctx, item):
         return [Violation(K + k, w, case, o, r) for k, w, o, r in history_oracle(case["history_seed"])][:1]
     if "numeric_seed" in case:
         return [Violation(K + k, w, case, o, r) for k, w, o, r in numeric_oracle(case["numeric_seed"])][:1]
+    if "tall_rows" in case:
+        return [Violation(K + k, w, case, o, r) for k, w, o, r in tall_oracle(case["tall_rows"], case["single"])][:1]
     best = {}
     for key, what, obs, req in oracle(case):
         best.setdefault(K + key, Violation(K + key, what, case, obs, req))
